@@ -59,9 +59,14 @@ func modeOf(kind string) filemode.FileMode {
 		return filemode.Executable
 	case "l":
 		return filemode.Symlink
+	case "s":
+		return filemode.Submodule
 	}
 	return filemode.Regular
 }
+
+// the commit a gitlink entry points at (never present in the object store)
+var gitlinkHash = plumbing.NewHash("5151515151515151515151515151515151515151")
 
 func kindOfMode(m filemode.FileMode) string {
 	switch m {
@@ -81,6 +86,8 @@ func kindOfMode(m filemode.FileMode) string {
 
 type env struct {
 	dir     string
+	trees   []plumbing.Hash // root tree of commit i
+	anyBlob plumbing.Hash   // some blob of the history
 	commits []plumbing.Hash
 	cidx    map[plumbing.Hash]int
 	tick    int64
@@ -117,6 +124,10 @@ func (e *env) storeTree(r *git.Repository, ents []fent, prefix string) plumbing.
 				order = append(order, d)
 			}
 			subs[d].ents = append(subs[d].ents, f)
+			continue
+		}
+		if f.kind == "s" {
+			entries = append(entries, object.TreeEntry{Name: rel, Mode: filemode.Submodule, Hash: gitlinkHash})
 			continue
 		}
 		entries = append(entries, object.TreeEntry{Name: rel, Mode: modeOf(f.kind), Hash: e.storeBlob(r, f.content)})
@@ -158,17 +169,41 @@ func (e *env) hashOf(i int64) plumbing.Hash {
 	if i == -1 {
 		return plumbing.ZeroHash
 	}
+	// 100 / 101: objects that exist but are no commits (root tree of commit 0, a blob)
+	if i == 100 && len(e.trees) > 0 {
+		return e.trees[0]
+	}
+	if i == 101 && !e.anyBlob.IsZero() {
+		return e.anyBlob
+	}
 	if i < 0 || int(i) >= len(e.commits) {
 		return plumbing.NewHash("deadbeefdeadbeefdeadbeefdeadbeefdeadbeef")
 	}
 	return e.commits[i]
 }
 
+func (e *env) deleteObject(h plumbing.Hash) {
+	hs := h.String()
+	os.Remove(filepath.Join(e.dir, ".git", "objects", hs[:2], hs[2:]))
+}
+
 func (e *env) writeWT(f fent) {
 	p := filepath.Join(e.dir, filepath.FromSlash(f.path))
 	os.RemoveAll(p)
+	// an ancestor that is a file or a symlink is replaced by a directory (rm d; mkdir -p d/e)
+	for d := filepath.Dir(p); len(d) > len(e.dir); d = filepath.Dir(d) {
+		if fi, err := os.Lstat(d); err == nil && !fi.IsDir() {
+			os.Remove(d)
+		}
+	}
 	if err := os.MkdirAll(filepath.Dir(p), 0o755); err != nil {
 		panic(err)
+	}
+	if f.kind == "d" || f.kind == "s" {
+		if err := os.MkdirAll(p, 0o755); err != nil {
+			panic(err)
+		}
+		return
 	}
 	e.tick++
 	sec := 978307200 + e.tick // 2001-01-01 + tick: never equal to an index entry's mtime, always before the index file's
@@ -210,6 +245,7 @@ type snap struct {
 	Index [][]any `json:"index"`
 	WT    [][]any `json:"wt"`
 	Dirs  []string `json:"emptydirs,omitempty"`
+	AllDirs []string `json:"dirs,omitempty"`
 	// raw bytes of .git/HEAD, .git/packed-refs and every file below .git/refs
 	Raw map[string]string `json:"raw"`
 }
@@ -270,7 +306,11 @@ func (e *env) snapshot() (lib.Out, snap) {
 	for _, en := range ents {
 		var content []byte
 		kind := kindOfMode(en.Mode)
-		if b, err := r.BlobObject(en.Hash); err == nil {
+		if en.Mode == filemode.Submodule {
+			if en.Hash != gitlinkHash {
+				kind = "missing_s"
+			}
+		} else if b, err := r.BlobObject(en.Hash); err == nil {
 			rd, _ := b.Reader()
 			content, _ = io.ReadAll(rd)
 			rd.Close()
@@ -316,6 +356,7 @@ func (e *env) snapshot() (lib.Out, snap) {
 			t, _ := os.Readlink(p)
 			files = append(files, fent{rel, "l", []byte(t)})
 		case fi.IsDir():
+			s.AllDirs = append(s.AllDirs, rel)
 			if l, _ := os.ReadDir(p); len(l) == 0 {
 				s.Dirs = append(s.Dirs, rel)
 			}
@@ -357,6 +398,8 @@ func classify(err error) string {
 		return "object_not_found"
 	case strings.Contains(err.Error(), "already exists"):
 		return "branch_exists"
+	case errors.Is(err, git.ErrEmptyCommit):
+		return "empty_commit"
 	}
 	return "other"
 }
@@ -395,9 +438,14 @@ func run(c lib.Case) (lib.Out, any) {
 	}
 	for i, cm := range c.L("commits") {
 		ents := entsOf(lib.AsCase(cm).L("tree"))
-		h := e.storeCommit(r, e.storeTree(r, ents, ""), i)
+		th := e.storeTree(r, ents, "")
+		h := e.storeCommit(r, th, i)
+		e.trees = append(e.trees, th)
 		e.commits = append(e.commits, h)
 		e.cidx[h] = i
+		if e.anyBlob.IsZero() && len(ents) > 0 {
+			e.anyBlob = e.storeBlob(r, ents[0].content)
+		}
 	}
 	for _, x := range c.L("refs") {
 		t, _ := x.([]any)
@@ -422,6 +470,10 @@ func run(c lib.Case) (lib.Out, any) {
 	ie := entsOf(c.L("index"))
 	sort.Slice(ie, func(i, j int) bool { return ie[i].path < ie[j].path })
 	for _, f := range ie {
+		if f.kind == "s" {
+			idx.Entries = append(idx.Entries, &index.Entry{Name: f.path, Mode: filemode.Submodule, Hash: gitlinkHash})
+			continue
+		}
 		idx.Entries = append(idx.Entries, &index.Entry{Name: f.path, Mode: modeOf(f.kind), Hash: e.storeBlob(r, f.content)})
 	}
 	if err := r.Storer.SetIndex(idx); err != nil {
@@ -434,6 +486,34 @@ func run(c lib.Case) (lib.Out, any) {
 	gitMode := c.S("git")
 	if gitMode == "" {
 		gitMode = "forced"
+	}
+	// corrupt the object store as the case asks: root trees, nested trees, blobs
+	for _, x := range c.L("notree") {
+		if n := int(lib.Case{"n": x}.I("n")); n >= 0 && n < len(e.trees) {
+			e.deleteObject(e.trees[n])
+		}
+	}
+	for _, x := range c.L("noobject") {
+		t, _ := x.([]any)
+		n := int(lib.Case{"n": t[0]}.I("n"))
+		path, _ := t[1].(string)
+		if n < 0 || n >= len(e.commits) {
+			continue
+		}
+		if r2, err := git.PlainOpen(dir); err == nil {
+			if co, err := r2.CommitObject(e.commits[n]); err == nil {
+				if tr, err := co.Tree(); err == nil {
+					if en, err := tr.FindEntry(path); err == nil {
+						e.deleteObject(en.Hash)
+					}
+				}
+			}
+		}
+	}
+	for _, x := range c.L("nocommit") {
+		if n := int(lib.Case{"n": x}.I("n")); n >= 0 && n < len(e.commits) {
+			e.deleteObject(e.commits[n])
+		}
 	}
 	var outs []lib.Out
 	type step struct {
@@ -482,6 +562,22 @@ func run(c lib.Case) (lib.Out, any) {
 			mode := map[string]git.ResetMode{"mixed": git.MixedReset, "hard": git.HardReset, "merge": git.MergeReset,
 				"soft": git.SoftReset, "keep": git.KeepReset}[op.S("mode")]
 			err = w.Reset(&git.ResetOptions{Commit: e.hashOf(op.I("commit")), Mode: mode})
+		case "add", "commit":
+			porcelain = true
+			r, oerr := git.PlainOpen(dir)
+			if oerr != nil {
+				panic(oerr)
+			}
+			w, werr := r.Worktree()
+			if werr != nil {
+				panic(werr)
+			}
+			if op.S("op") == "add" {
+				_, err = w.Add(op.S("path"))
+			} else {
+				sig := &object.Signature{Name: "v", Email: "v@v", When: time.Unix(1000001000, 0).UTC()}
+				_, err = w.Commit("c\n", &git.CommitOptions{Author: sig, Committer: sig, All: op.Bool("all")})
+			}
 		default:
 			panic("unknown op " + op.S("op"))
 		}
